@@ -149,6 +149,8 @@ def check(case):
     pair_dir = np.zeros((p, p))
     position = np.zeros((p, p), dtype=int)
     identity_orders = 0
+    special = sorted(set([0, 1, 2, p - 3, p - 2, p - 1])) if p >= 6 else list(range(p))
+    pos_adj = {(a, b): 0 for a in special for b in special if a < b}
     ctx0 = "dag_%s(p=%d%s, w=[%r,%r])" % ("avg_deg" if gen == "avg" else "full", p, "" if gen == "full" else ", k=%r" % case["k"], w_min, w_max)
     for s in seeds:
         with_order = case["ordering"] == "yes" or (case["ordering"] == "mixed" and s % 2 == 0)
@@ -169,6 +171,10 @@ def check(case):
                 position[node, k] += 1
             if [int(x) for x in order] == list(range(p)):
                 identity_orders += 1
+            ol = [int(x) for x in order]
+            for (a, b) in pos_adj:                       # adjacency of the nodes at positions a < b of the returned ordering
+                if rows[ol[a]] >> ol[b] & 1:
+                    pos_adj[(a, b)] += 1
         ne = sum(bin(r).count("1") for r in rows)
         counts.append(ne)
         for i in range(p):
@@ -209,6 +215,15 @@ def check(case):
             z = (s2 / var - 1) / math.sqrt(2.0 / (S - 1) + max(exk, 0) / S + 1e-12)
             if abs(z) > stats.Z_MAX:
                 raise Violation("edge_count_dispersion", "%s: variance of the per-graph edge count %.3f, expected %.3f (z=%.1f)" % (ctx0, s2, var, z))
+        # ... and in ordering space: the nodes at any two positions of the returned order are adjacent with probability q
+        n_ord = int(position[0].sum()) if p else 0
+        if n_ord >= 50:
+            for (a, b), cnt in pos_adj.items():
+                lo, hi = stats.binom_tails(cnt, n_ord, q)
+                if min(lo, hi) < stats.BINOM_TAIL / max(1, len(pos_adj)):
+                    raise Violation("position_pair_frequency", "%s: the nodes at positions %d and %d of the ordering are adjacent in %d of %d "
+                                    "graphs, expected %.1f (tails %.2g / %.2g)" % (ctx0, a, b, cnt, n_ord, n_ord * q, lo, hi))
+            lab.append("position_pairs")
         lab.append("law")
     # direction of each pair is a fair coin (random relabelling)
     if p >= 2 and q > 0:
@@ -257,6 +272,11 @@ def _grid(tier, seed):
                              "ordering": ["yes", "mixed", "yes", "no"][idx % 4], "debug": idx % 5 == 0,
                              "ptype": PTYPES[idx % 7],
                              "seeds": [seed * 1000003 + idx * 5003 + s for s in range(Sp)]})
+    # many seeds at a moderate size and low density (edge slots sampled directly?): position-pair frequencies need ~400 graphs
+    for (p, k) in [(64, 5.0), (100, 6.0)]:
+        idx += 1
+        cfgs.append({"sub": "grid", "gen": "avg", "p": p, "k": k, "w": [0.5, 2], "ordering": "yes", "debug": False, "ptype": None,
+                     "seeds": [seed * 1000003 + idx * 5003 + s for s in range(400 if tier == "quick" else 1200)]})
     for p in [0, 1, 2, 3, 4, 5, 6, 8, 20]:
         for wi, w in enumerate(RANGES):
             idx += 1
@@ -289,7 +309,8 @@ def plan(tier, seed):
         jobs.append({"sub": "grid", "seed": seed, "shard": k, "nshards": nshards, "tier": tier, "cost": 10})
     # very large graphs: k = 0 must stay empty, k = p-1 complete (any rounding of the edge probability shows here), and
     # dag_full beyond a few thousand nodes (block-wise implementations)
-    big = [("avg", 3000, 0.0)] * (24 if tier == "quick" else 96) + [("avg", 1500, 1499.0), ("full", 2049, None), ("full", 2600, None), ("avg", 2100, 3.0)]
+    big = [("avg", 3000, 0.0)] * (24 if tier == "quick" else 96) + [("avg", 1500, 1499.0), ("full", 2049, None), ("full", 2600, None), ("avg", 2100, 3.0),
+                                                                            ("avg", 4200, 2.0), ("full", 4100, None)]
     for n, (gen, p, k) in enumerate(big):
         jobs.append({"sub": "large", "seed": seed, "gen": gen, "p": p, "k": k, "index": n, "cost": 12})
     n = scaled(6400 if tier == "quick" else 80000)
